@@ -374,6 +374,31 @@ def check(pid, tier):
             shards += rs
             shutil.rmtree(rtmp, ignore_errors=True)
 
+    # optional legs built with a repository build tag (e.g. the repo's own checked build)
+    for leg in meta.get("tag_legs") or []:
+        if leg.get("tier", tier) != tier and leg.get("tier") != "both":
+            continue
+        tb = build(pid, tags=leg["tags"])
+        if tb is None:
+            inconclusive.append("build with -tags %s failed" % leg["tags"])
+            continue
+        ts, tp, ttmp = run_shards(tb, pid, tier, int(leg.get("shards", 8)), leg.get("timeout", timeout), subs=leg.get("subs"),
+                                  extra_env={"VERIF_TAGS": leg["tags"], "VERIF_SCALE": str(leg.get("scale", 1))})
+        for kind, k, txt in tp:
+            if kind == "died" and ("panic:" in txt or "fatal error:" in txt):
+                pdir = os.path.join(REPLAYS, pid)
+                os.makedirs(pdir, exist_ok=True)
+                rp_path = os.path.join(pdir, "tagleg-%s-died-%d.log" % (leg["tags"], k))
+                open(rp_path, "w").write(txt)
+                violations.append(rp_path)
+            else:
+                problems.append(("tagleg-" + kind, k, txt))
+        for s in ts:
+            s["sub_evaluations"] = {leg["tags"] + ":" + k: v for k, v in (s.get("sub_evaluations") or {}).items()}
+            s["classes"] = {leg["tags"] + ":" + k: v for k, v in (s.get("classes") or {}).items()}
+        shards += ts
+        shutil.rmtree(ttmp, ignore_errors=True)
+
     for s in shards:
         for v in s.get("violations") or []:
             violations.append(write_replay(pid, v))
